@@ -321,6 +321,32 @@ func c03Check(c *rt.C, st *c03State, env *codecEnv, m *dynamicpb.Message, class 
 					doc = renderTree(tree, "")
 					s.val.Obj = saved
 					expectReject(doc, "two-keys-in-oneof", s.kind, pos, fmt.Sprintf("second key %s written first in %s", a.JSON, s.describe()))
+					// the same without the (optional) "!type" member
+					var noType []jMember
+					for _, mm := range saved {
+						if mm.Key != "!type" {
+							noType = append(noType, mm)
+						}
+					}
+					if len(noType) != len(saved) {
+						s.val.Obj = append(append([]jMember{}, noType...), jMember{a.JSON, v})
+						doc = renderTree(tree, "")
+						s.val.Obj = saved
+						expectReject(doc, "two-keys-in-oneof", s.kind, pos, fmt.Sprintf("second key %s added to %s, no !type member", a.JSON, s.describe()))
+					}
+					// three keys
+					for _, a3 := range s.arms {
+						if a3 == present || a3 == a {
+							continue
+						}
+						if v3 := validArmValue(env.model, a3); v3 != nil {
+							s.val.Obj = append(append([]jMember{}, saved...), jMember{a.JSON, v}, jMember{a3.JSON, v3})
+							doc = renderTree(tree, "")
+							s.val.Obj = saved
+							expectReject(doc, "three-keys-in-oneof", s.kind, pos, fmt.Sprintf("keys %s and %s added to %s", a.JSON, a3.JSON, s.describe()))
+							break
+						}
+					}
 				}
 				break
 			}
